@@ -433,11 +433,13 @@ func loadChunk(l *Lexer, recordLen uint64) error {
 			return fmt.Errorf("failed to decompress chunk: %w", err)
 		}
 
-		// LZ4 chunks may have some crc data at the end that is not required to
-		// fill a buffer, meaning the ReadFull call above does not consume it.
-		// Therefore we have to do an empty read. If we get any data out of
-		// this, it's an error.
-		if compression == CompressionLZ4 {
+		// LZ4 and zstd chunks may have some crc data at the end that is not
+		// required to fill a buffer, meaning the ReadFull call above does not
+		// consume it (zstd: depending on whether the decoder runs synchronously).
+		// Therefore we have to do an empty read, or the bytes left behind would
+		// be lexed as the next record. If we get any data out of this, it's an
+		// error.
+		if compression == CompressionLZ4 || compression == CompressionZSTD {
 			extraBytes, err := io.ReadAll(l.reader)
 			if err != nil {
 				return fmt.Errorf("failed to read extra bytes: %w", err)
